@@ -58,10 +58,11 @@ INLINE_CODE_SPAN = AtomicPattern(
 
 # Markdown links: [text](url) or [text][ref] or [text]. The text may hold bracket pairs of its
 # own (a footnote reference, `[note[^1]](url "title")`); without them in the pattern the
-# link ended at the first `]` and could be broken inside its destination.
+# link ended at the first `]` and could be broken inside its destination. Likewise the
+# destination may hold a pair of parentheses (`[a](http://x/a_(b) "title")`).
 MARKDOWN_LINK = AtomicPattern(
     name="markdown_link",
-    pattern=r"\[(?:[^\[\]]|\[[^\[\]]*\])*\](?:\([^)]*\)|\[[^\]]*\])?",
+    pattern=r"\[(?:[^\[\]]|\[[^\[\]]*\])*\](?:\((?:[^()]|\([^()]*\))*\)|\[[^\]]*\])?",
     open_delim="",
     close_delim="",
     open_re="",
